@@ -1,0 +1,117 @@
+//go:build verif
+
+package grpctunnel
+
+// Read-only accessors and constructors used by the verification harness in
+// /verif. This file is only compiled with the "verif" build tag; it adds
+// nothing to and changes nothing in the package otherwise.
+
+import (
+	"context"
+
+	"google.golang.org/grpc"
+
+	"github.com/jhump/grpctunnel/tunnelpb"
+)
+
+// VerifSender exposes the flow-control sender core.
+type VerifSender struct{ s sender }
+
+// VerifNewSender creates a flow-controlled sender with the given window.
+func VerifNewSender(ctx context.Context, window uint32, sendFunc func(data []byte, totalSize uint32, first bool) error) *VerifSender {
+	return &VerifSender{s: newSender(ctx, window, sendFunc)}
+}
+
+func (v *VerifSender) Send(data []byte) error  { return v.s.send(data) }
+func (v *VerifSender) UpdateWindow(add uint32) { v.s.updateWindow(add) }
+
+// Window returns the sender's current window, or -1 if it is not flow controlled.
+func (v *VerifSender) Window() int64 {
+	if ds, ok := v.s.(*defaultSender); ok {
+		return int64(ds.currentWindow.Load())
+	}
+	return -1
+}
+
+// VerifReceiver exposes the flow-control receiver core for []byte items.
+type VerifReceiver struct{ r receiver[[]byte] }
+
+// VerifNewReceiver creates a flow-controlled receiver with the given window;
+// credit is reported through updateWindow.
+func VerifNewReceiver(window uint32, updateWindow func(uint32)) *VerifReceiver {
+	return &VerifReceiver{r: newReceiver(func(b []byte) uint { return uint(len(b)) }, updateWindow, window)}
+}
+
+func (v *VerifReceiver) Accept(b []byte) error   { return v.r.accept(b) }
+func (v *VerifReceiver) Close()                  { v.r.close() }
+func (v *VerifReceiver) Cancel()                 { v.r.cancel() }
+func (v *VerifReceiver) Dequeue() ([]byte, bool) { return v.r.dequeue() }
+
+// State returns the receiver's current window and number of queued items.
+func (v *VerifReceiver) State() (window uint32, items int) {
+	dr := v.r.(*defaultReceiver[[]byte])
+	dr.mu.Lock()
+	defer dr.mu.Unlock()
+	return dr.currentWindow, dr.items.Len()
+}
+
+// VerifChannelStreams returns the size of a channel's stream table (-1 if ch
+// is not a tunnel channel, -2 once the table has been released).
+func VerifChannelStreams(ch TunnelChannel) int {
+	c, ok := ch.(*tunnelChannel)
+	if !ok {
+		return -1
+	}
+	c.mu.RLock()
+	defer c.mu.RUnlock()
+	if c.streams == nil {
+		return -2
+	}
+	return len(c.streams)
+}
+
+// VerifServer is a read-only handle on the tunnel server that delivered an RPC.
+type VerifServer struct{ s *tunnelServer }
+
+// VerifStream is a read-only handle on a server-side stream.
+type VerifStream struct{ st *tunnelServerStream }
+
+// VerifServerFromContext returns handles for the tunnel server and stream
+// behind a handler's context.
+func VerifServerFromContext(ctx context.Context) (*VerifServer, *VerifStream, bool) {
+	ts := grpc.ServerTransportStreamFromContext(ctx)
+	st, ok := ts.(*tunnelServerTransportStream)
+	if !ok {
+		return nil, nil, false
+	}
+	return &VerifServer{s: st.svr}, &VerifStream{st: (*tunnelServerStream)(st)}, true
+}
+
+// Streams returns the size of the server's stream table.
+func (v *VerifServer) Streams() int {
+	v.s.mu.RLock()
+	defer v.s.mu.RUnlock()
+	return len(v.s.streams)
+}
+
+// Same reports whether two handles denote the same tunnel server.
+func (v *VerifServer) Same(o *VerifServer) bool { return o != nil && v.s == o.s }
+
+// QueuedBytes returns the number of request bytes buffered for the stream
+// (-1 if the stream is not flow controlled).
+func (v *VerifStream) QueuedBytes() int {
+	dr, ok := v.st.receiver.(*defaultReceiver[tunnelpb.ClientToServerFrame])
+	if !ok {
+		return -1
+	}
+	dr.mu.Lock()
+	defer dr.mu.Unlock()
+	n := 0
+	for e := dr.items.Front(); e != nil; e = e.Next() {
+		n += int(dr.measure(e.Value.(tunnelpb.ClientToServerFrame)))
+	}
+	return n
+}
+
+// ID returns the stream's id on its tunnel.
+func (v *VerifStream) ID() int64 { return v.st.streamID }
